@@ -350,3 +350,9 @@ pub mod __internal__ {
         response::{ResponseHeader, ResponseHeaders},
     };
 }
+
+/// verification hooks, compiled only with `--cfg ohkami_verif`
+#[cfg(ohkami_verif)]
+#[cfg(feature="__rt_native__")]
+#[doc(hidden)]
+pub mod __verif__;
